@@ -398,7 +398,16 @@ func (c *famCtx) streamVsBuffer() {
 		return
 	}
 	obs := c.ref.Obs
+	// The verdict and value comparison with Unmarshal is made for texts that are
+	// JSON (encoding/json's scanner accepts them). On other texts the two
+	// decoders of go-json are differently lenient in many small ways; that is a
+	// pure function of the text (property C05), shows up under every chunking
+	// alike, and is left to input-space techniques. Chunk independence, the
+	// reader-error rule, conservation and termination apply to every text.
 	if len(c.f.Parts) == 1 {
+		if !json.Valid(c.doc) {
+			return
+		}
 		uv, uerr, up := unmarshalInto(c.ti, c.doc)
 		if up != "" {
 			return // a panic in Unmarshal is not this oracle's business
@@ -415,7 +424,7 @@ func (c *famCtx) streamVsBuffer() {
 		return
 	}
 	for i, part := range c.f.Parts {
-		if i >= len(obs) {
+		if i >= len(obs) || !json.Valid(part) {
 			return
 		}
 		uv, uerr, up := unmarshalInto(c.ti, part)
